@@ -920,7 +920,7 @@ def search(ctx):
 
     if "ls" in streams or not streams:
         tg = targets or ADV_TARGETS
-        for i in range(ctx.n(2500, 12000)):
+        for i in range(ctx.n(20000, 80000)):
             case = gen_lsadv_case(rng, rng.choice(tg)) if i % 3 else gen_profile_case(rng)
             if attempt(case):
                 return
